@@ -2,10 +2,10 @@
   C10 — copy / deepcopy / pickle round trip.
 
   Mirrors, in src/attr/_make.py: `_ClassBuilder._make_getstate_setstate` (`slots_getstate` = dict of every
-  name of `_attr_names` read with `getattr`; `slots_setstate` = `object.__setattr__` for the names present in
+  name of `_attr_names` read with `getattr`, never empty for a hash-caching class; `slots_setstate` = `object.__setattr__` for the names present in
   a dict state, positional `zip` for a legacy tuple state, then the hash-cache reset), the wiring in
   `attrs.wrap` (`_determine_whether_to_implement(cls, getstate_setstate, auto_detect, ("__getstate__",
-  "__setstate__"), default=slots)`), `_CacheHashWrapper.__reduce__` (→ `None`), the hash-cache part of
+  "__setstate__"), default=slots or _inherits_generated_getstate(cls))`), `_CacheHashWrapper.__reduce__` (→ `None`), the hash-cache part of
   `_make_hash_script` and the end of the generated `__init__` (`_attrs_to_init_script`, cache reset and the
   store technique of `_determine_setters` / `_is_slot_attr`), `_create_slots_class` (which names become slots,
   the `__slots__` tuple with reused slots / `__weakref__` / the cache field), the hash/eq part of
@@ -215,6 +215,8 @@ structure Summary where
   lastCache : Bool
   lastByMro : Bool
   lastOwn : List String
+  /-- the last class passed `getstate_setstate=False` -/
+  lastOptOut : Bool
   /-- every class so far was accepted at definition time and is well-formed -/
   ok : Bool
   deriving Repr, Inhabited
@@ -222,7 +224,8 @@ structure Summary where
 def Summary.init : Summary :=
   { attrs := [], gs := .dflt, hash := .identity, eq := Option.none, frozen := false, slotNames := [], hasDict := false,
     hasWeakref := false, slotEntries := [], slotsAttr := Option.none, bases := [], self := Option.none,
-    lastAttrs := false, lastSlots := false, lastCache := false, lastByMro := false, lastOwn := [], ok := true }
+    lastAttrs := false, lastSlots := false, lastCache := false, lastByMro := false, lastOwn := [],
+    lastOptOut := false, ok := true }
 
 def Summary.names (s : Summary) : List String := s.attrs.map (·.1.name)
 
@@ -235,13 +238,19 @@ def collect (acc : List (Field × Bool)) (c : Cls) : List (Field × Bool) :=
     (acc.filter (fun p => !c.ownNames.contains p.1.name)).map (fun p => (p.1, true)) ++ c.fields.map (·, false)
   else acc
 
-/-- `_determine_whether_to_implement(cls, getstate_setstate, auto_detect, (…), default=slots)` -/
-def gsEff (c : Cls) : Bool :=
+def GS.isGen : GS → Bool
+  | .gen _ _ _ => true
+  | _ => false
+
+/-- `_determine_whether_to_implement(cls, getstate_setstate, auto_detect, (…),
+    default=slots or _inherits_generated_getstate(cls))`; `inherited` = what the bases resolve: a class that
+    would inherit a pair attrs generated for a base (it defines none in its body) gets its own, slotted or not -/
+def gsEff (inherited : GS) (c : Cls) : Bool :=
   c.isAttrs &&
   (match c.gs with
    | .t => true
    | .f => false
-   | .none => if c.autoDetect && c.userGS then false else c.slots)
+   | .none => if c.autoDetect && c.userGS then false else c.slots || (!c.userGS && inherited.isGen))
 
 inductive HashDec where
   | gen | none | inherit
@@ -297,7 +306,7 @@ def step (s : Summary) (c : Cls) : Summary :=
   let frozen' := s.frozen || (c.isAttrs && c.frozen)
   let tuple := slotsTuple s c
   { attrs := attrs',
-    gs := if gsEff c then .gen names' c.cacheHash true else if c.userGS then .user else disinherit s.gs,
+    gs := if gsEff s.gs c then .gen names' c.cacheHash true else if c.userGS then .user else disinherit s.gs,
     hash := (match hashDec c frozen' with
       | .gen => .gen names' c.cacheHash frozen' true
       | .none => .unhashable
@@ -312,7 +321,7 @@ def step (s : Summary) (c : Cls) : Summary :=
     bases := s.self.toList ++ s.bases,
     self := some { hasSlotsDunder := c.slots, attrs := attrs'.map (fun p => (p.1.name, p.2)) },
     lastAttrs := c.isAttrs, lastSlots := c.slots, lastCache := c.isAttrs && c.cacheHash,
-    lastByMro := c.collectByMro, lastOwn := c.ownNames,
+    lastByMro := c.collectByMro, lastOwn := c.ownNames, lastOptOut := c.isAttrs && c.gs == .f,
     ok := s.ok && clsWf c frozen' }
 
 def summarize (chain : List Cls) : Summary := chain.foldl step Summary.init
@@ -481,8 +490,9 @@ def roundtrip (s : Summary) (op : Op) (x : Inst) : Except R Inst :=
     match getstateGen L x names with
     | Option.none => .error .attributeError
     | some st =>
-      -- protocols 0/1 drop a falsy state: `__setstate__` is never called
-      if isLow op && st.isEmpty then .ok Inst.empty
+      -- protocols 0/1 drop a falsy state: `__setstate__` is never called (a caching class never returns one:
+      -- its `__getstate__` then carries the cache key with `None`)
+      if isLow op && st.isEmpty && !cache then .ok Inst.empty
       else match setstateGen L Inst.empty names cache (st.map (fun p => (p.1, transfer op p.2))) with
         | Option.none => .error .attributeError
         | some y => .ok y
